@@ -2203,20 +2203,19 @@ class RawAlgorithmsMixIn:
         Lam_data    = cls._diag(lam_data)
         Lambar_data = cls._diag(lambar_data)
 
-        # STEP 1: compute H
+        # STEP 1: compute H, the reciprocal of the eigenvalue gaps in Taylor arithmetic
         for m in range(N):
             for n in range(N):
                 for p in range(P):
-                    tmp = lam_data[0,p,n] - lam_data[0,p,m]
-                    if numpy.abs(tmp) > 1e-8:
-                        for d in range(D):
-                            H[d,p,m,n] = 1./tmp
-                # tmp = lam_data[:,:,n] -   lam_data[:,:,m]
-                # cls._truediv(Id, tmp, out = H[:,:,m,n])
+                    tmp = lam_data[:,p,n] - lam_data[:,p,m]
+                    if numpy.abs(tmp[0]) > 1e-8:
+                        H[0,p,m,n] = 1./tmp[0]
+                        for d in range(1,D):
+                            H[d,p,m,n] = -numpy.sum(tmp[1:d+1] * H[d-1::-1,p,m,n][:d])/tmp[0]
 
         # STEP 2: compute Lbar +  H * Q^T Qbar
         cls._dot(cls._transpose(Q_data), Qbar_data, out = tmp1)
-        tmp1[...] *= H[...]
+        tmp1 = cls._mul(tmp1, H)
         tmp1[...] += Lambar_data[...]
 
         # STEP 3: compute Q ( Lbar +  H * Q^T Qbar ) Q^T
